@@ -12,6 +12,9 @@ pub mod allocator {
 
 /// Heap layout helpers (`util::heap::{space_descriptor, layout::*}` are `pub(crate)`).
 pub mod heap {
+    pub use crate::util::heap::layout::{
+        Mmapper, VMMap, VERIF_MMAPPER_FACTORY, VERIF_VM_MAP_FACTORY,
+    };
     pub use crate::util::heap::space_descriptor::SpaceDescriptor;
 }
 
